@@ -115,6 +115,7 @@ func init() {
 			panic(pathAbort{kind: "deadlock", msg: "Lock of a mutex already held by this goroutine at " + in.siteOf(fr.caller)})
 		}
 		*st = in.ts.BV(1, s.w)
+		in.heldLocks++
 		return nil
 	}, "(*sync.Mutex).Lock")
 	reg(func(fr *frame, args []value) value { // TryLock
@@ -125,6 +126,7 @@ func init() {
 			return in.ts.False
 		}
 		*st = in.ts.BV(1, s.w)
+		in.heldLocks++
 		return in.ts.True
 	}, "(*sync.Mutex).TryLock")
 	reg(func(fr *frame, args []value) value { // Unlock
@@ -135,6 +137,7 @@ func init() {
 			panic(targetPanic{v: iface{t: in.runtimeErrorT, v: "sync: unlock of unlocked mutex"}, site: in.siteOf(fr.caller), rt: true})
 		}
 		*st = in.ts.BV(0, s.w)
+		in.heldLocks--
 		return nil
 	}, "(*sync.Mutex).Unlock")
 	// RWMutex{w Mutex, writerSem, readerSem uint32, readerCount, readerWait atomic.Int32}:
@@ -146,6 +149,7 @@ func init() {
 			panic(pathAbort{kind: "deadlock", msg: "RWMutex.Lock while held by this goroutine at " + in.siteOf(fr.caller)})
 		}
 		st[1] = in.ts.BV(1, 32)
+		in.heldLocks++
 		return nil
 	}, "(*sync.RWMutex).Lock")
 	reg(func(fr *frame, args []value) value {
@@ -155,6 +159,7 @@ func init() {
 			panic(targetPanic{v: iface{t: in.runtimeErrorT, v: "sync: Unlock of unlocked RWMutex"}, site: in.siteOf(fr.caller), rt: true})
 		}
 		st[1] = in.ts.BV(0, 32)
+		in.heldLocks--
 		return nil
 	}, "(*sync.RWMutex).Unlock")
 	reg(func(fr *frame, args []value) value {
@@ -164,6 +169,7 @@ func init() {
 			panic(pathAbort{kind: "deadlock", msg: "RWMutex.RLock while write-locked by this goroutine at " + in.siteOf(fr.caller)})
 		}
 		st[2] = in.ts.BV(in.asTerm(st[2], "rw").k+1, 32)
+		in.heldLocks++
 		return nil
 	}, "(*sync.RWMutex).RLock")
 	reg(func(fr *frame, args []value) value {
@@ -173,6 +179,7 @@ func init() {
 			panic(targetPanic{v: iface{t: in.runtimeErrorT, v: "sync: RUnlock of unlocked RWMutex"}, site: in.siteOf(fr.caller), rt: true})
 		}
 		st[2] = in.ts.BV(in.asTerm(st[2], "rw").k-1, 32)
+		in.heldLocks--
 		return nil
 	}, "(*sync.RWMutex).RUnlock")
 	reg(func(fr *frame, args []value) value { return nil },
